@@ -17,6 +17,11 @@ checks = {
    text="Every binary/unary operator on every ordered pair of a 46..83-value int/float lattice (plus string and non-number operands) is evaluated through Lua with argument operands, Lua with literal operands and the exported Go functions and compared with refnum (math/big modulo 2^64, exact rational comparison); order laws (trichotomy, transitivity) on all pairs/triples; every string of length <= 5 (quick) / 6 (thorough) over the numeral alphabet plus a curated list through tonumber, string arithmetic and as a source literal; math.abs/floor/ceil/modf/tointeger/type/fmod/ult/max/min over the lattice; tonumber(s, base) for every base x every string of length <= 3. Exhaustive within these bounds.",
    note="Trusted: refnum (Go float64 = IEEE binary64, math/big, strconv.ParseFloat correctly rounded). Skipped as unspecified: operands whose int->float conversion is inexact, inexact powers, bitwise operators on strings, signs with an explicit base, string collation."),
 }
+checks["C09"] = dict(
+   level="model_checking", design="§4 C09, §1.4", engine="sched",
+   technique="stateless model checking of the real coroutine hand-off code under a controlled cooperative scheduler: deviation(preemption)-bounded DFS over all schedules of every action history up to a depth bound, with a vector-clock happens-before monitor, deadlock and goroutine-leak detection",
+   text="Every history of coroutine actions (create/wrap/resume/call/yield/return/error/close/status/to-be-closed scopes incl. handlers that act/pcall/CPU- and memory-limited callcontext/spin) over 2-3 coroutines up to the depth bound is executed on the real runtime, with runtime/thread.go's mutexes, channel operations and go statement routed through the vsched scheduler (instrumented copy generated from the current working tree and mounted by go build -overlay). For each history ALL schedules with at most the stated number of preemptions are explored (quick: depth 3/bound 2 and depth 4/bound 1; thorough: depth 4/bound 3, depth 5/bound 1, depth 6/bound 0, budget capped and reported). Oracle on every execution: no Go panic in any goroutine, no deadlock, no unordered conflicting access to Thread.status/caller/closeErr/currentCont, the runtime context manager or the VM loop (vector clocks over spawn/lock/send/receive/close edges), parked goroutines at the end = live coroutines (no leak), and the observation (emit trace, results, final statuses) equals that of the default schedule.",
+   note="Trusted: the rewriter's purely syntactic substitution (sync.Mutex, chan, go, close) and the marked access locations; sequentially consistent interleavings only (weak memory is outside the model); the luagc pool mutex is not driven because the finaliser seam keeps Go's finaliser goroutine out. Value-transfer/status semantics against a reference model is covered by the histories family once reflua is available.")
 not_yet = {}
 m = {
  "version": 1,
@@ -30,6 +35,7 @@ m = {
  },
  "engines": [
    {"name": "core", "path": "engine/core", "serves_properties": sorted(checks), "kind_free_text": "index-addressable families, 16-way sharding over worker subprocesses, crash/hang attribution to the case in flight, known-findings matching, evidence + replay files"},
+   {"name": "sched", "path": "engine/vschedsrc + engine/rewrite + engine/explore", "serves_properties": ["C09"], "kind_free_text": "cooperative scheduler shim mounted into golua by a generated build overlay (AST rewriter over the current /repo sources), deviation-bounded DFS over choice tapes, vector-clock race monitor, deadlock/leak detection"},
  ],
  "checks": [],
  "not_applicable": [],
@@ -57,7 +63,7 @@ for pid in ALL:
         })
     else:
         m["not_applicable"].append({"property_id": pid, "reason": extra.get("not_applicable", {}).get(pid, "check not built yet in this round (planned: see DESIGN.md §4)")})
-m["engines"][0]["serves_properties"] = sorted(checks)
-m["hooks"]["source_commits"] = extra.get("hook_commits", [])
+m["engines"][0]["serves_properties"] = sorted(k for k in checks if checks[k].get("engine", "core") == "core")
+m["hooks"]["source_commits"] = ["40cd18e"] + extra.get("hook_commits", [])
 json.dump(m, open(os.path.join(ROOT, "MANIFEST.json"), "w"), indent=1)
 print("MANIFEST.json: %d checks, %d not_applicable" % (len(m["checks"]), len(m["not_applicable"])))
